@@ -3,6 +3,7 @@ mod c04;
 mod c11;
 mod c12;
 mod c14;
+mod c15;
 mod c16;
 mod corescn;
 mod model;
@@ -147,6 +148,7 @@ fn main() {
             code
         }
         "C14" => c14::run(&tier),
+        "C15" => c15::run(&tier, &known, lim),
         "C16" => run_scenarios(
             "C16",
             &tier,
